@@ -250,8 +250,6 @@ class BufGen:
             hb = self.stmts(self.r.randint(1, 4), 0, [], False)
             ast["helper"] = hb
             ast["body"].insert(self.r.randint(0, len(ast["body"])), {"k": "callh"})
-        if getattr(self, "uses_ix", False):
-            ast["index_tables"] = True
         if self.p.get("select"):
             ast["select"] = True  # %sel0 = one of two local buffers, decided at run time
         if self.p.get("n_allocs", N_ALLOCS) != N_ALLOCS:
@@ -274,6 +272,8 @@ class BufGen:
                 body.insert(at, {"k": "alloc", "buf": b})
         if self.p.get("multiblock"):
             ast["blocks"] = [self.stmts(self.r.randint(1, 3), 0, [], False), self.stmts(self.r.randint(1, 3), 0, [], False)]
+        if getattr(self, "uses_ix", False):
+            ast["index_tables"] = True
         return ast
 
 
